@@ -615,6 +615,9 @@ def r9_every_parameter_updated(ctx):
 def rules(ctx):
     r8_responsibility_weighted_averages(ctx)
     r9_every_parameter_updated(ctx)
+    # 'after every maximisation step': there is one at every iteration (same rule as C05.R8)
+    from .c05 import r8_step_runs_every_iteration
+    r8_step_runs_every_iteration(ctx, rid="C04.R10", why="the parameters keep the values of the previous iteration although the statistics of this one (computed with them) differ")
     r7_responsibilities_agree(ctx)
     r1_two_phase(ctx)
     r2_tables(ctx)
